@@ -1,7 +1,17 @@
 /-
   C10 — Indentation settings only re-render indentation.
+
+  Proved: the rendering law for FIXED counters (`recon_tabs_to_spaces`, `indent_units`, `saturated_width`); the
+  reduction of the whole property to "the search makes the same decisions under both settings"
+  (`stage_of_search_simulation_partial`, `format_full_partial`); the leaf facts of that open statement
+  (`penalty_width_free`, `too_long_false`, `token_line_length_le`, `requirement_width_free`); the unconditional
+  instance `tab_width = 1` (`stage_tab_width_one`).
+  OPEN: `search_width_free` (the decisions of the search do not depend on the widths of the indentation strings when
+  no line reaches the width limit); the inventory of all length reads and the exact obstacle (the child-line cache
+  key contains a line length) are in the header of Proofs/SearchWidthFree.lean.
 -/
 import PasfmtModel.Proofs.ReconProps
+import PasfmtModel.Proofs.SearchWidthFree
 
 namespace Pasfmt.C10
 
@@ -37,5 +47,95 @@ theorem indent_units (c : Config) (hsat : c.contIndents * c.tabWidth ≤ 255) (i
 theorem saturated_width (c : Config) (h : c.useTabs = false) (hs : c.contIndents * c.tabWidth > 255) :
     c.settings.contStr.length = 255 := by
   unfold Config.settings; simp [h, satMulU8]; omega
+
+/-- The penalty of a decision is the same in two runs of the search that differ only in the widths of the
+    indentation strings: always for a break, and for a continue when neither line length exceeds the width limit
+    (the only length-dependent summand is the overflow penalty, which is then 0 in both runs). -/
+theorem penalty_width_free {O₁ O₂ : Olf} (h : OlfTwin O₁ O₂) (rd : RawDecision) (l₁ l₂ li : Nat)
+    (line : LineA) (stack : SpecificContextStack)
+    (hl : rd = .cont → l₁ ≤ O₁.cfg.wrapColumn ∧ l₂ ≤ O₁.cfg.wrapColumn) :
+    O₁.getDecisionPenalty rd l₁ li line stack = O₂.getDecisionPenalty rd l₂ li line stack :=
+  getDecisionPenalty_width_free h rd l₁ l₂ li line stack hl
+
+/-- the "last line is too long" test of the search (the only other comparison of a length with the limit) is false
+    when both lengths it reads are within the limit -/
+theorem too_long_false (O : Olf) (lastTokenLength lastChildLength : Nat)
+    (h1 : lastTokenLength ≤ O.cfg.wrapColumn) (h2 : lastChildLength ≤ O.cfg.wrapColumn) :
+    decide (max lastTokenLength lastChildLength > O.maxLineLength) = false :=
+  tooLong_false_of_le O lastTokenLength lastChildLength h1 h2
+
+/-- one step of the bound on line lengths: if everything the length of the next token is computed from is at most
+    `B` (previous length, lengths in the previous token's child solutions, the width of the line's whitespace, the
+    last line of a multi-line token), the new length is at most `B` plus the token's spaces and content -/
+theorem token_line_length_le (O : Olf) (ws : LineWhitespace) (prev : DecisionRef) (d : Dec) (ti : Option Nat) (B : Nat)
+    (hprev : prev.value.lastLineLength ≤ B)
+    (hchild : ∀ s ∈ prev.value.childSolutions, ∀ x ∈ s.2.decisions, x.lastLineLength ≤ B)
+    (hws : ∀ c, d = .brk c → (ws.add { indentations := 0, continuations := c }).len O.cfg ≤ B)
+    (hws0 : ws.len O.cfg ≤ B)
+    (hml : ∀ i t l, ti = some i → O.formattedTokens[i]? = some t → t.lastLine = some l → l ≤ B) :
+    O.getTokenLineLength ws prev d ti ≤
+      B + ((ti.bind fun i => O.tokenLengths[i]?).map fun t => t.spacesBefore + t.content).getD 0 :=
+  getTokenLineLength_le O ws prev d ti B hprev hchild hws hws0 hml
+
+/-- the requirement of a decision (must break / must not break / indifferent / invalid) reads neither the widths
+    of the indentation strings nor any line length -/
+theorem requirement_width_free {O₁ O₂ : Olf} (h : OlfTwin O₁ O₂) (li : Nat) (line : LineA)
+    (stack : SpecificContextStack) (node : FormattingNode) :
+    O₁.getFormattingRequirement li line stack node = O₂.getFormattingRequirement li line stack node :=
+  getFormattingRequirement_twin h li line stack node
+
+/-- C10 for the wrapper stage and the reconstruction, reduced to the open statement about the search.  If the
+    searches under `use_tabs = true` and `use_tabs = false` are related by a simulation `R` (related states give the
+    same solution for every line and related states again, for all token states satisfying a property `V` that
+    applying a solution preserves), then with `format_multiline_strings = false` and
+    `continuation_indents * tab_width ≤ 255` the stage ends with the same tokens under both settings, and replacing
+    every tab of the `use_tabs = true` output by `tab_width` spaces gives exactly the `use_tabs = false` output
+    (no final token may contain a tab itself). -/
+theorem stage_of_search_simulation_partial (c : Config) (hsat : c.contIndents * c.tabWidth ≤ 255)
+    (hm : c.fmtMls = false) (R : SearchState → SearchState → Prop) (V : FT → Prop) (lines : List Line) (ft : FT)
+    (hV : ∀ ft s i ft1, V ft → applySol lines ft s i = some ft1 → V ft1)
+    (hR : ∀ st₁ st₂ ft i, R st₁ st₂ → V ft →
+      (searchSolve st₁ ft i).1 = (searchSolve st₂ ft i).1 ∧ R (searchSolve st₁ ft i).2 (searchSolve st₂ ft i).2)
+    (hinit : R (searchInit { c with useTabs := true } lines ft) (searchInit { c with useTabs := false } lines ft))
+    (hv : V ft) (ft2 : FT) (sols : List (Nat × Nat × Sol))
+    (hw : wrapStageFull { c with useTabs := true } lines ft = some (ft2, sols))
+    (hnt : ∀ t ∈ ft2, noTabTok t = true) :
+    wrapStageFull { c with useTabs := false } lines ft = some (ft2, sols) ∧
+      expandTabs c.tabWidth (reconstruct ({ c with useTabs := true }).settings ft2)
+        = reconstruct ({ c with useTabs := false }).settings ft2 :=
+  C10_stage_of_search_simulation_partial c hsat hm R V lines ft hV hR hinit hv ft2 sols hw hnt
+
+/-- C10 for the wrapper stage and the reconstruction when `tab_width = 1`, for every line width: the search sees
+    the same configuration under both settings, so with `format_multiline_strings = false` the stage ends with the
+    same tokens, and replacing every tab of the `use_tabs = true` output by one space gives the `use_tabs = false`
+    output. -/
+theorem stage_tab_width_one (c : Config) (h1 : c.tabWidth = 1) (hc : c.contIndents ≤ 255)
+    (hm : c.fmtMls = false) (lines : List Line) (ft ft2 : FT) (sols : List (Nat × Nat × Sol))
+    (hw : wrapStageFull { c with useTabs := true } lines ft = some (ft2, sols))
+    (hnt : ∀ t ∈ ft2, noTabTok t = true) :
+    wrapStageFull { c with useTabs := false } lines ft = some (ft2, sols) ∧
+      expandTabs c.tabWidth (reconstruct ({ c with useTabs := true }).settings ft2)
+        = reconstruct ({ c with useTabs := false }).settings ft2 :=
+  C10_stage_tab_width_one c h1 hc hm lines ft ft2 sols hw hnt
+
+/-- C10 for the whole formatter, reduced to two facts about the wrapper stage on the tokens and lines the earlier
+    stages produce: (1) the stage ends with the same tokens under `use_tabs = true` and `use_tabs = false` (what
+    `stage_of_search_simulation_partial` / `stage_tab_width_one` give), (2) no token it ends with contains a tab.
+    Then replacing every tab of the `use_tabs = true` output by `tab_width` spaces gives exactly the
+    `use_tabs = false` output (`continuation_indents * tab_width ≤ 255`); in particular one run fails iff the other
+    does. -/
+theorem format_full_partial (c : Config) (hsat : c.contIndents * c.tabWidth ≤ 255) (alnum : Bytes → Bool)
+    (s : Bytes)
+    (hstage : ∀ raw, lex s = some raw → ∀ po, parseAndConsolidate raw = some po →
+      ∀ p, p = preWrap { parser := fun _ => po, wrap := fun _ _ ft => ft, alnum := alnum } raw →
+      wrapStageFull { c with useTabs := true } p.2.1 p.2.2 = wrapStageFull { c with useTabs := false } p.2.1 p.2.2 ∧
+      ∀ ft2 sols, wrapStageFull { c with useTabs := true } p.2.1 p.2.2 = some (ft2, sols) →
+        ∀ t ∈ ft2, noTabTok t = true) :
+    (formatFull { c with useTabs := true } alnum s).map (expandTabs c.tabWidth) =
+      formatFull { c with useTabs := false } alnum s := by
+  unfold formatFull
+  cases hl : lex s with
+  | none => rfl
+  | some raw => exact C10_format_tokens_partial c hsat alnum raw (hstage raw hl)
 
 end Pasfmt.C10
